@@ -89,6 +89,21 @@ def trace_stats(traces):
             "max_body_depth": maxdepth, "programs_with_nested_emission": nested_emit, "exceptions": exc}
 
 
+def harness_stats(stderrs):
+    """what the harness-only variations did (exception types thrown, emissions made during stack unwinding)"""
+    tot = collections.Counter()
+    for e in stderrs:
+        for l in (e or "").split("\n"):
+            if l.startswith("#harness-stats"):
+                for kv in l.split()[1:]:
+                    k, _, v = kv.partition("=")
+                    try:
+                        tot[k] += int(v)
+                    except ValueError:
+                        pass
+    return dict(tot)
+
+
 def nontrivial(trace):
     """a program is non-trivial if the implementation invoked at least one functor and at least 8
     operations had an effect (were not answered dead/exists/...)"""
@@ -189,6 +204,8 @@ def run(ctx, mod):
                                         "SpecK.model_refines_pure_spec (mechanism model allowed by the specification proper)")
     except Exception as e:
         stats["programs_clear_of_known_findings"] = "not evaluated: %r" % (e,)
+    stats["harness_variations"] = harness_stats([r.get("stderr") for r in res])
+    stats["programs_with_owning_functors"] = sum(1 for r in res if r["input"].startswith("owners") or "\nowners\n" in r["input"])
     stats["programs_touching_known_findings"] = dict(known)
     stats["corpus_programs"] = len(corpus)
     samples = []
